@@ -37,6 +37,12 @@ def cells(tier):
                             if tier == "quick" and kind != "mem" and (extra == 2 or prof == "short"):
                                 continue
                             out.append(dict(kind=kind, M=M, backlog=M + extra, prof=prof, tl=tl, nq=nq, plugin=None))
+    # one failing disposition call (a broker fault outside the actor) must not change the count
+    for kind in kinds:
+        for M in (2, 3):
+            for tl in (1, 2):
+                for fault in (["ack", 0], ["ack", 1]):
+                    out.append(dict(kind=kind, M=M, backlog=M + 2, prof="short", tl=tl, nq=1, plugin=None, fault=fault))
     for mode in ("immediate", "failing-retry", "deferred", "two-jobs"):
         out.append(dict(kind="mem", M=1, backlog=1, prof="short", tl=1000, nq=1, plugin=mode))
     return out
@@ -79,7 +85,7 @@ def execute(cell):
                          params=lambda w: w.params(retries=2, timeout=100.0)))
     res = run_worker(cell["kind"], build=build, messages=msgs, queues=queues, stop_mode="self",
                      worker_kw=dict(messages_limit=cell["M"], tasks_limit=cell["tl"], graceful_shutdown_time=5.0),
-                     max_iters=200_000, settle=1.0)
+                     max_iters=200_000, settle=1.0, fail_calls=[cell["fault"]] if cell.get("fault") else None)
     viol = []
     M = cell["M"]
     if res.status != "ok":
@@ -98,6 +104,10 @@ def execute(cell):
             if (res.ret_ns - mth) / NS > 0.5 + 5 + 1:
                 viol.append(("late-return", f"run() returned {(res.ret_ns - mth) / NS:.2f}s after execution {M} finished"))
     done = {r[3] for r in oks}
+    if cell.get("fault"):
+        # the message whose ack failed stays in flight / is not removed: only the counts are judged
+        summary = dict(started=started_ids, finished=sorted(done))
+        return res, [v for v in viol if v[0] == "too-many-started"], summary
     for i in range(cell["backlog"]):
         mid = f"m{i}"
         ents = res.obs.get(mid, [])
